@@ -10,7 +10,10 @@ _cache = {}
 
 def get_mir():
     if 'fns' not in _cache:
-        text, dt = mirx.dump_mir('/repo')
+        try:
+            text, dt = mirx.dump_mir('/repo')
+        except mirx.Inconclusive as e:
+            raise lib.Inconclusive('Engine M: %s' % e)     # no MIR at all: inconclusive (exit 2), not a not-decided group
         _cache['text'] = text
         _cache['fns'] = mirx.parse_mir(text)
         _cache['dump_s'] = dt
@@ -48,9 +51,11 @@ class M:
                     d['model'] = {str(v): str(model[v]) for v in model.decls()}
                     if callable(cfg):
                         cfg = cfg(model)
-                self.ctx.findings.append(lib.Finding(self.ctx.pid, key or label, 'Engine M: %s answered %s (expected %s)' % (label, ans, expect), cfg, pred, d))
+                fd = lib.Finding(self.ctx.pid, key or label, 'Engine M: %s answered %s (expected %s)' % (label, ans, expect), cfg, pred, d)
+                fd.engine = 'M'
+                self.ctx.findings.append(fd)
             else:
-                self.ctx.inconclusive.append('Engine M %s: solver answered %s' % (label, ans))
+                self.ctx.m_note(label, 'solver answered %s' % ans)
         return ok
 
     def no_overflow(self, paths, what, key, assume=()):
@@ -72,6 +77,27 @@ class M:
         if not sw:
             raise lib.Inconclusive('loop head: no switch on the Option discriminant')
         return sw.group(1)
+
+    def section(self, group, fn):
+        """one obligation group tied to one code shape. If the translator does not recognise the shape on this tree (anchor lost,
+        unexpected path shapes, opaque operands, evaluator failure) the group is reported as NOT DECIDED (a NOTE line, listed in the
+        evidence) and the check's other engines decide the property on this tree; it is not an alarm (DESIGN.md section 2.2)."""
+        try:
+            fn()
+            self.ctx.m_decided.append(group)
+            return True
+        except (lib.Inconclusive, mirx.Inconclusive) as e:
+            self.ctx.m_note(group, str(e))
+        except Exception as e:
+            self.ctx.m_note(group, 'the evaluator could not process this code shape (%s: %s)' % (type(e).__name__, str(e)[:200]))
+        return False
+
+    def expect(self, cond, key, what, cfg, pred=None, detail=None):
+        n = len(self.ctx.findings)
+        ok = self.ctx.expect(cond, key, what, cfg, pred, detail)
+        for f in self.ctx.findings[n:]:
+            f.engine = 'M'
+        return ok
 
     def note_region(self, f, desc, blocks):
         self.regions.append({'function': f.name[-70:], 'region': desc, 'blocks': blocks})
@@ -95,6 +121,10 @@ def pc_union(paths):
     return z3.Or([z3.And(*p.pc) if p.pc else z3.BoolVal(True) for p in paths])
 
 
+def pow2(x):
+    return z3.And(x != 0, (x & (x - 1)) == 0)
+
+
 def u64v(name):
     return z3.BitVec(name, 64)
 
@@ -109,161 +139,177 @@ def bvint(model, name, default=0):
 # ================================================================================================ C17
 def c17_constructors(ctx):
     m = M(ctx)
-    # ---- ExtensionDegree::try_from(u8): Ok(variant k) iff v == k in 1..=6
-    f = m.fn(r'pedersen_gens\.rs:\d+:1: \d+:37>::try_from$')
-    ev = Evaluator(f)
-    paths = ev.run()
-    v = ev.sym('_1@0', 'u8').e
-    names = ['DefaultPedersen', 'AddOneBasePoint', 'AddTwoBasePoints', 'AddThreeBasePoints', 'AddFourBasePoints', 'AddFiveBasePoints']
-    m.note_region(f, 'whole function', sorted(f.blocks))
-    m.oblige('ExtensionDegree::try_from(u8): paths exhaustive', [z3.Not(pc_union(paths))], key='C17:ext-u8')
-    bad = []
-    for p in paths:
-        r = p.env['_0']
-        pc = z3.And(*p.pc) if p.pc else z3.BoolVal(True)
-        if z3.is_true(r.ok):
-            k = names.index(r.okv.name.split('::')[-1]) + 1
-            bad.append(z3.And(pc, v != k))
-        else:
-            bad.append(z3.And(pc, z3.ULE(1, v), z3.ULE(v, 6)))
-    m.oblige('ExtensionDegree::try_from(u8) == Ok(k) iff v == k in 1..=6, for all u8', [z3.Or(bad)], key='C17:ext-u8', pred='ctor_mismatch',
-             cfg=lambda mod: {'scenario': 'ctor', 'fn': 'ext_u8', 'v': bvint(mod, '_1@0')}, detail={'spec': 'ext'})
-    # ---- ExtensionDegree::try_from(usize): Err unless v <= 255, then try_from(v as u8)
-    f = m.fn(r'pedersen_gens\.rs:\d+:1: \d+:40>::try_from$')
-    ev = Evaluator(f)
-    paths = ev.run()
-    v = ev.sym('_1@0', 'usize').e
-    m.note_region(f, 'whole function', sorted(f.blocks))
-    bad = []
-    for p in paths:
-        calls = [o for o in p.obs if o['kind'] == 'call' and 'TryFrom<u8>' in o['callee']]
-        pc = z3.And(*p.pc) if p.pc else z3.BoolVal(True)
-        if calls:
-            a = calls[0]['args'][0]
-            if not isinstance(a, BV):
-                raise lib.Inconclusive('opaque argument to try_from(u8)')
-            # delegated: only for v <= 255 and with exactly that value
-            bad.append(z3.And(pc, z3.Or(z3.UGT(v, 255), z3.ZeroExt(56, a.e) != v)))
-        else:
+    def _s0():
+        # ---- ExtensionDegree::try_from(u8): Ok(variant k) iff v == k in 1..=6
+        f = m.fn(r'pedersen_gens\.rs:\d+:1: \d+:37>::try_from$')
+        ev = Evaluator(f)
+        paths = ev.run()
+        v = ev.sym('_1@0', 'u8').e
+        names = ['DefaultPedersen', 'AddOneBasePoint', 'AddTwoBasePoints', 'AddThreeBasePoints', 'AddFourBasePoints', 'AddFiveBasePoints']
+        m.note_region(f, 'whole function', sorted(f.blocks))
+        m.oblige('ExtensionDegree::try_from(u8): paths exhaustive', [z3.Not(pc_union(paths))], key='C17:ext-u8')
+        bad = []
+        for p in paths:
             r = p.env['_0']
-            if not (isinstance(r, Res) and z3.is_false(r.ok)):
-                raise lib.Inconclusive('unexpected path shape in try_from(usize)')
-            bad.append(z3.And(pc, z3.ULE(v, 255)))
-    m.oblige('ExtensionDegree::try_from(usize): delegates to try_from(v as u8) iff v <= 255, Err otherwise, for all usize', [z3.Or(bad)], key='C17:ext-usize', pred='ctor_mismatch',
-             cfg=lambda mod: {'scenario': 'ctor', 'fn': 'ext_usize', 'v': bvint(mod, '_1@0')}, detail={'spec': 'ext'})
-    m.oblige('ExtensionDegree::try_from(usize): paths exhaustive', [z3.Not(pc_union(paths))], key='C17:ext-usize')
-    # ---- RangeParameters::init
-    f = m.fn(r'range_parameters\.rs.*>::init$')
-    ev = Evaluator(f)
-    paths = ev.run()
-    n, c = ev.sym('_1@0', 'usize').e, ev.sym('_2@0', 'usize').e
-    m.note_region(f, 'whole function up to BulletproofGens::new (opaque)', sorted(f.blocks))
-    pow2 = lambda x: z3.And(x != 0, (x & (x - 1)) == 0)
-    spec = z3.And(pow2(n), pow2(c), z3.ULE(n, 64))
-    reach = []
-    for p in paths:
-        calls = [o for o in p.obs if o['kind'] == 'call' and 'BulletproofGens' in o['callee'] and o['callee'].endswith('::new')]
-        if calls:
-            a = calls[0]['args']
-            pcs = calls[0]['pc']
-            reach.append(z3.And(*pcs) if pcs else z3.BoolVal(True))
-            if not (isinstance(a[0], BV) and isinstance(a[1], BV)):
-                raise lib.Inconclusive('opaque arguments to BulletproofGens::new')
-            m.oblige('RangeParameters::init passes (bit_length, capacity) on unchanged', pcs + [z3.Or(a[0].e != n, a[1].e != c)], key='C17:params-adjusted', pred='ctor_mismatch',
-                     cfg=lambda mod: {'scenario': 'ctor', 'fn': 'params', 'bit_length': bvint(mod, '_1@0'), 'cap': bvint(mod, '_2@0')}, detail={'spec': 'params'})
-        else:
+            pc = z3.And(*p.pc) if p.pc else z3.BoolVal(True)
+            if z3.is_true(r.ok):
+                k = names.index(r.okv.name.split('::')[-1]) + 1
+                bad.append(z3.And(pc, v != k))
+            else:
+                bad.append(z3.And(pc, z3.ULE(1, v), z3.ULE(v, 6)))
+        m.oblige('ExtensionDegree::try_from(u8) == Ok(k) iff v == k in 1..=6, for all u8', [z3.Or(bad)], key='C17:ext-u8', pred='ctor_mismatch',
+                 cfg=lambda mod: {'scenario': 'ctor', 'fn': 'ext_u8', 'v': bvint(mod, '_1@0')}, detail={'spec': 'ext'})
+    m.section('ExtensionDegree::try_from(u8)', _s0)
+    def _s1():
+        # ---- ExtensionDegree::try_from(usize): Err unless v <= 255, then try_from(v as u8)
+        f = m.fn(r'pedersen_gens\.rs:\d+:1: \d+:40>::try_from$')
+        ev = Evaluator(f)
+        paths = ev.run()
+        v = ev.sym('_1@0', 'usize').e
+        m.note_region(f, 'whole function', sorted(f.blocks))
+        bad = []
+        for p in paths:
+            calls = [o for o in p.obs if o['kind'] == 'call' and 'TryFrom<u8>' in o['callee']]
+            pc = z3.And(*p.pc) if p.pc else z3.BoolVal(True)
+            if calls:
+                a = calls[0]['args'][0]
+                if not isinstance(a, BV):
+                    raise lib.Inconclusive('opaque argument to try_from(u8)')
+                # delegated: only for v <= 255 and with exactly that value
+                bad.append(z3.And(pc, z3.Or(z3.UGT(v, 255), z3.ZeroExt(56, a.e) != v)))
+            else:
+                r = p.env['_0']
+                if not (isinstance(r, Res) and z3.is_false(r.ok)):
+                    raise lib.Inconclusive('unexpected path shape in try_from(usize)')
+                bad.append(z3.And(pc, z3.ULE(v, 255)))
+        m.oblige('ExtensionDegree::try_from(usize): delegates to try_from(v as u8) iff v <= 255, Err otherwise, for all usize', [z3.Or(bad)], key='C17:ext-usize', pred='ctor_mismatch',
+                 cfg=lambda mod: {'scenario': 'ctor', 'fn': 'ext_usize', 'v': bvint(mod, '_1@0')}, detail={'spec': 'ext'})
+        m.oblige('ExtensionDegree::try_from(usize): paths exhaustive', [z3.Not(pc_union(paths))], key='C17:ext-usize')
+    m.section('ExtensionDegree::try_from(usize)', _s1)
+    def _s2():
+        # ---- RangeParameters::init
+        f = m.fn(r'range_parameters\.rs.*>::init$')
+        ev = Evaluator(f)
+        paths = ev.run()
+        n, c = ev.sym('_1@0', 'usize').e, ev.sym('_2@0', 'usize').e
+        m.note_region(f, 'whole function up to BulletproofGens::new (opaque)', sorted(f.blocks))
+        spec = z3.And(pow2(n), pow2(c), z3.ULE(n, 64))
+        reach = []
+        for p in paths:
+            calls = [o for o in p.obs if o['kind'] == 'call' and 'BulletproofGens' in o['callee'] and o['callee'].endswith('::new')]
+            if calls:
+                a = calls[0]['args']
+                pcs = calls[0]['pc']
+                reach.append(z3.And(*pcs) if pcs else z3.BoolVal(True))
+                if not (isinstance(a[0], BV) and isinstance(a[1], BV)):
+                    raise lib.Inconclusive('opaque arguments to BulletproofGens::new')
+                m.oblige('RangeParameters::init passes (bit_length, capacity) on unchanged', pcs + [z3.Or(a[0].e != n, a[1].e != c)], key='C17:params-adjusted', pred='ctor_mismatch',
+                         cfg=lambda mod: {'scenario': 'ctor', 'fn': 'params', 'bit_length': bvint(mod, '_1@0'), 'cap': bvint(mod, '_2@0')}, detail={'spec': 'params'})
+            else:
+                r = p.env.get('_0')
+                if not (isinstance(r, Res) and z3.is_false(r.ok)):
+                    raise lib.Inconclusive('RangeParameters::init: a path returns without constructing generators and without Err')
+        reach_e = z3.Or(reach) if reach else z3.BoolVal(False)
+        m.oblige('RangeParameters::init reaches generator construction iff bit_length, capacity powers of two and bit_length <= 64, for all usize pairs', [reach_e != spec],
+                 key='C17:params-domain', pred='ctor_mismatch', cfg=lambda mod: {'scenario': 'ctor', 'fn': 'params', 'bit_length': bvint(mod, '_1@0'), 'cap': bvint(mod, '_2@0')}, detail={'spec': 'params'})
+        m.oblige('RangeParameters::init: paths exhaustive', [z3.Not(pc_union(paths))], key='C17:params-domain')
+        m.no_overflow(paths, 'RangeParameters::init', 'C17:params')
+    m.section('RangeParameters::init', _s2)
+    def _s3():
+        # ---- RangeStatement::init
+        f = m.fn(r'range_statement\.rs.*>::init$')
+        ev = Evaluator(f)
+        paths = ev.run()
+        m.note_region(f, 'whole function (compression loop: one iteration)', sorted(f.blocks))
+        syms = {k[0]: v for k, v in ev.sym_decl.items()}
+        lens = {k: v for k, v in syms.items() if k.startswith('len(')}
+        lc = [v for k, v in lens.items() if re.search(r'_2@', k)]
+        lp = [v for k, v in lens.items() if re.search(r'_3@', k)]
+        cap = [v for k, v in syms.items() if 'max_aggregation_factor' in k]
+        if len(lc) != 1 or len(lp) != 1 or len(cap) != 1:
+            raise lib.Inconclusive('RangeStatement::init: expected one length symbol per argument, got %s' % sorted(lens))
+        lc, lp, cap = lc[0].e, lp[0].e, cap[0].e
+        seed_some = None
+        built = []
+        for p in paths:
             r = p.env.get('_0')
-            if not (isinstance(r, Res) and z3.is_false(r.ok)):
-                raise lib.Inconclusive('RangeParameters::init: a path returns without constructing generators and without Err')
-    reach_e = z3.Or(reach) if reach else z3.BoolVal(False)
-    m.oblige('RangeParameters::init reaches generator construction iff bit_length, capacity powers of two and bit_length <= 64, for all usize pairs', [reach_e != spec],
-             key='C17:params-domain', pred='ctor_mismatch', cfg=lambda mod: {'scenario': 'ctor', 'fn': 'params', 'bit_length': bvint(mod, '_1@0'), 'cap': bvint(mod, '_2@0')}, detail={'spec': 'params'})
-    m.oblige('RangeParameters::init: paths exhaustive', [z3.Not(pc_union(paths))], key='C17:params-domain')
-    m.no_overflow(paths, 'RangeParameters::init', 'C17:params')
-    # ---- RangeStatement::init
-    f = m.fn(r'range_statement\.rs.*>::init$')
-    ev = Evaluator(f)
-    paths = ev.run()
-    m.note_region(f, 'whole function (compression loop: one iteration)', sorted(f.blocks))
-    syms = {k[0]: v for k, v in ev.sym_decl.items()}
-    lens = {k: v for k, v in syms.items() if k.startswith('len(')}
-    lc = [v for k, v in lens.items() if re.search(r'_2@', k)]
-    lp = [v for k, v in lens.items() if re.search(r'_3@', k)]
-    cap = [v for k, v in syms.items() if 'max_aggregation_factor' in k]
-    if len(lc) != 1 or len(lp) != 1 or len(cap) != 1:
-        raise lib.Inconclusive('RangeStatement::init: expected one length symbol per argument, got %s' % sorted(lens))
-    lc, lp, cap = lc[0].e, lp[0].e, cap[0].e
-    seed_some = None
-    built = []
-    for p in paths:
-        r = p.env.get('_0')
-        pc = z3.And(*p.pc) if p.pc else z3.BoolVal(True)
-        if p.end[0] == 'return' and isinstance(r, Res) and z3.is_true(r.ok):
-            built.append(pc)
-        elif p.end[0] == 'backedge':
-            built.append(pc)
-    is_some = [v for k, v in ev.sym_decl.items() if 'is_some' in k[0]]
-    if len(is_some) != 1:
-        raise lib.Inconclusive('RangeStatement::init: seed presence symbol not found')
-    seed_some = is_some[0].e
-    spec = z3.And(pow2(lc), lp == lc, z3.UGE(cap, lc), z3.Not(z3.And(seed_some, z3.UGT(lc, 1))))
-    m.oblige('RangeStatement::init constructs a statement iff #commitments is a power of two, #promises == #commitments, #commitments <= capacity, seed only for one commitment (all usize, both seed states)',
-             [z3.Or(built) != spec], key='C17:statement-domain', pred='ctor_mismatch',
-             cfg=lambda mod: {'scenario': 'ctor', 'fn': 'statement', 'bit_length': 4, 'commitments': bvint(mod, str(lc)) % 64, 'promises': bvint(mod, str(lp)) % 64, 'cap': max(1, bvint(mod, str(cap)) % 64),
-                              'seeded': str(mod.eval(seed_some, model_completion=True)) == 'True'}, detail={'spec': 'statement'})
-    m.no_overflow(paths, 'RangeStatement::init', 'C17:statement')
-    # ---- ExtendedMask::assign
-    f = m.fn(r'extended_mask\.rs.*>::assign$')
-    ev = Evaluator(f)
-    paths = ev.run()
-    m.note_region(f, 'whole function', sorted(f.blocks))
-    syms = {k[0]: v for k, v in ev.sym_decl.items()}
-    ln = [v for k, v in syms.items() if k.startswith('len(')]
-    disc = [v for k, v in syms.items() if k.startswith('disc(')]
-    if len(ln) != 1:
-        raise lib.Inconclusive('ExtendedMask::assign: length symbol not found')
-    ln = ln[0].e
-    impl = ok_expr(paths)
-    if disc:
-        d = disc[0].e
-        spec = z3.And(ln != 0, ln == d)
-        m.oblige('ExtendedMask::assign Ok iff len != 0 and len == degree (degree discriminant symbolic, all usize lengths)', [impl != spec], key='C17:mask-domain', pred='ctor_mismatch',
-                 cfg=lambda mod: {'scenario': 'ctor', 'fn': 'mask', 'degree': bvint(mod, str(d)) % 8, 'len': bvint(mod, str(ln)) % 16}, detail={'spec': 'mask'})
-    else:
-        raise lib.Inconclusive('ExtendedMask::assign: degree discriminant not found')
-    # ---- CommitmentOpening::r_len
-    f = m.fn(r'commitment_opening\.rs.*>::r_len$')
-    ev = Evaluator(f)
-    paths = ev.run()
-    m.note_region(f, 'whole function', sorted(f.blocks))
-    ln = [v for k, v in ev.sym_decl.items() if k[0].startswith('len(')][0].e
-    bad = []
-    for p in paths:
-        r = p.env['_0']
-        pc = z3.And(*p.pc) if p.pc else z3.BoolVal(True)
-        if z3.is_true(r.ok):
-            bad.append(z3.And(pc, z3.Or(ln == 0, r.okv.e != ln)))
+            pc = z3.And(*p.pc) if p.pc else z3.BoolVal(True)
+            if p.end[0] == 'return' and isinstance(r, Res) and z3.is_true(r.ok):
+                built.append(pc)
+            elif p.end[0] == 'backedge':
+                built.append(pc)
+        is_some = [v for k, v in ev.sym_decl.items() if 'is_some' in k[0]]
+        if len(is_some) != 1:
+            raise lib.Inconclusive('RangeStatement::init: seed presence symbol not found')
+        seed_some = is_some[0].e
+        spec = z3.And(pow2(lc), lp == lc, z3.UGE(cap, lc), z3.Not(z3.And(seed_some, z3.UGT(lc, 1))))
+        m.oblige('RangeStatement::init constructs a statement iff #commitments is a power of two, #promises == #commitments, #commitments <= capacity, seed only for one commitment (all usize, both seed states)',
+                 [z3.Or(built) != spec], key='C17:statement-domain', pred='ctor_mismatch',
+                 cfg=lambda mod: {'scenario': 'ctor', 'fn': 'statement', 'bit_length': 4, 'commitments': bvint(mod, str(lc)) % 64, 'promises': bvint(mod, str(lp)) % 64, 'cap': max(1, bvint(mod, str(cap)) % 64),
+                                  'seeded': str(mod.eval(seed_some, model_completion=True)) == 'True'}, detail={'spec': 'statement'})
+        m.no_overflow(paths, 'RangeStatement::init', 'C17:statement')
+    m.section('RangeStatement::init', _s3)
+    def _s4():
+        # ---- ExtendedMask::assign
+        f = m.fn(r'extended_mask\.rs.*>::assign$')
+        ev = Evaluator(f)
+        paths = ev.run()
+        m.note_region(f, 'whole function', sorted(f.blocks))
+        syms = {k[0]: v for k, v in ev.sym_decl.items()}
+        ln = [v for k, v in syms.items() if k.startswith('len(')]
+        disc = [v for k, v in syms.items() if k.startswith('disc(')]
+        if len(ln) != 1:
+            raise lib.Inconclusive('ExtendedMask::assign: length symbol not found')
+        ln = ln[0].e
+        impl = ok_expr(paths)
+        if disc:
+            d = disc[0].e
+            spec = z3.And(ln != 0, ln == d)
+            m.oblige('ExtendedMask::assign Ok iff len != 0 and len == degree (degree discriminant symbolic, all usize lengths)', [impl != spec], key='C17:mask-domain', pred='ctor_mismatch',
+                     cfg=lambda mod: {'scenario': 'ctor', 'fn': 'mask', 'degree': bvint(mod, str(d)) % 8, 'len': bvint(mod, str(ln)) % 16}, detail={'spec': 'mask'})
         else:
-            bad.append(z3.And(pc, ln != 0))
-    m.oblige('CommitmentOpening::r_len == Ok(len) iff len != 0', [z3.Or(bad)], key='C17:opening-domain', pred=None)
-    # ---- PedersenGens::commit guard
-    f = m.fn(r'pedersen_gens\.rs.*>::commit$')
-    ev = Evaluator(f)
-    paths = ev.run()
-    m.note_region(f, 'whole function up to the multiscalar multiplication (opaque)', sorted(f.blocks))
-    syms = {k[0]: v for k, v in ev.sym_decl.items()}
-    ln = [v for k, v in syms.items() if k.startswith('len(')]
-    disc = [v for k, v in syms.items() if k.startswith('disc(')]
-    if len(ln) < 1 or len(disc) != 1:
-        raise lib.Inconclusive('PedersenGens::commit: symbols not found %s' % sorted(syms)[:6])
-    ln, d = ln[0].e, disc[0].e
-    impl = ok_expr(paths)
-    spec = z3.And(ln != 0, z3.ULE(ln, d))
-    m.oblige('PedersenGens::commit Ok iff 1 <= #blindings <= degree (all usize)', [impl != spec], key='C17:commit-domain', pred='ctor_mismatch',
-             cfg=lambda mod: {'scenario': 'ctor', 'fn': 'commit', 'degree': max(1, min(6, bvint(mod, str(d)))), 'len': bvint(mod, str(ln)) % 16}, detail={'spec': 'commit'})
-    # ---- RangeWitness::init: first opening gives the degree; loop body (one iteration from an arbitrary state) refuses any other count
-    f = m.fn(r'range_witness\.rs.*>::init$')
-    c17_witness(m, f)
+            raise lib.Inconclusive('ExtendedMask::assign: degree discriminant not found')
+    m.section('ExtendedMask::assign', _s4)
+    def _s5():
+        # ---- CommitmentOpening::r_len
+        f = m.fn(r'commitment_opening\.rs.*>::r_len$')
+        ev = Evaluator(f)
+        paths = ev.run()
+        m.note_region(f, 'whole function', sorted(f.blocks))
+        ln = [v for k, v in ev.sym_decl.items() if k[0].startswith('len(')][0].e
+        bad = []
+        for p in paths:
+            r = p.env['_0']
+            pc = z3.And(*p.pc) if p.pc else z3.BoolVal(True)
+            if z3.is_true(r.ok):
+                bad.append(z3.And(pc, z3.Or(ln == 0, r.okv.e != ln)))
+            else:
+                bad.append(z3.And(pc, ln != 0))
+        m.oblige('CommitmentOpening::r_len == Ok(len) iff len != 0', [z3.Or(bad)], key='C17:opening-domain', pred='ctor_mismatch',
+                 cfg=lambda mod: {'scenario': 'ctor', 'fn': 'witness', 'blindings': [bvint(mod, str(ln)) % 8]}, detail={'spec': 'witness'})
+    m.section('CommitmentOpening::r_len', _s5)
+    def _s6():
+        # ---- PedersenGens::commit guard
+        f = m.fn(r'pedersen_gens\.rs.*>::commit$')
+        ev = Evaluator(f)
+        paths = ev.run()
+        m.note_region(f, 'whole function up to the multiscalar multiplication (opaque)', sorted(f.blocks))
+        syms = {k[0]: v for k, v in ev.sym_decl.items()}
+        ln = [v for k, v in syms.items() if k.startswith('len(')]
+        disc = [v for k, v in syms.items() if k.startswith('disc(')]
+        if len(ln) < 1 or len(disc) != 1:
+            raise lib.Inconclusive('PedersenGens::commit: symbols not found %s' % sorted(syms)[:6])
+        ln, d = ln[0].e, disc[0].e
+        impl = ok_expr(paths)
+        spec = z3.And(ln != 0, z3.ULE(ln, d))
+        m.oblige('PedersenGens::commit Ok iff 1 <= #blindings <= degree (all usize)', [impl != spec], key='C17:commit-domain', pred='ctor_mismatch',
+                 cfg=lambda mod: {'scenario': 'ctor', 'fn': 'commit', 'degree': max(1, min(6, bvint(mod, str(d)))), 'len': bvint(mod, str(ln)) % 16}, detail={'spec': 'commit'})
+    m.section('PedersenGens::commit', _s6)
+    def _s7():
+        # ---- RangeWitness::init: first opening gives the degree; loop body (one iteration from an arbitrary state) refuses any other count
+        f = m.fn(r'range_witness\.rs.*>::init$')
+        c17_witness(m, f)
+    m.section('RangeWitness::init loop body', _s7)
     ctx.extra.setdefault('engine_m', {})['regions'] = m.regions
     ctx.extra['engine_m']['mir_dump_s'] = round(_cache.get('dump_s', 0), 1)
     ctx.functions |= {r['function'] for r in m.regions}
@@ -309,7 +355,7 @@ def c17_witness(m, f):
         nexts = [o for o in p.obs if o['kind'] == 'next']
         cmps = [a for a in p.trace if a in cmp_blocks]
         ok = ok and len(nexts) == 1 and not cmps
-    m.ctx.expect(ok, 'C17:witness-loop', 'RangeWitness::init: a loop iteration can continue without comparing the opening\'s blinding count', None, 'ctor_mismatch',
+    m.expect(ok, 'C17:witness-loop', 'RangeWitness::init: a loop iteration can continue without comparing the opening\'s blinding count', None, 'ctor_mismatch',
                  {'spec': 'witness', 'replay_cfg': {'scenario': 'ctor', 'fn': 'witness', 'blindings': [1, 1, 2]}})
     # the iterator must be skip(1) over ALL openings (chunking / windows would skip comparisons): the into_iter receiver is Skip<slice::Iter>
     it_blocks = [b for b in f.blocks if re.search(r'as Iterator>::next\(', f.blocks[b][1])]
@@ -317,7 +363,7 @@ def c17_witness(m, f):
     for b in it_blocks:
         mm = re.search(r'<(.*) as Iterator>::next', f.blocks[b][1])
         kinds.add(mm.group(1) if mm else '?')
-    m.ctx.expect(len(kinds) == 1 and list(kinds)[0].endswith("Skip<std::slice::Iter<'_, CommitmentOpening>>"), 'C17:witness-loop',
+    m.expect(len(kinds) == 1 and list(kinds)[0].endswith("Skip<std::slice::Iter<'_, CommitmentOpening>>"), 'C17:witness-loop',
                  'RangeWitness::init: the consistency loop does not iterate skip(1) over the openings one by one (iterator: %s)' % sorted(kinds), None, 'ctor_mismatch',
                  {'spec': 'witness', 'replay_cfg': {'scenario': 'ctor', 'fn': 'witness', 'blindings': [1, 1, 0]}})
 
@@ -325,170 +371,186 @@ def c17_witness(m, f):
 # ================================================================================================ C06
 def c06_prover_guards(ctx):
     m = M(ctx)
-    f = m.fn(r'range_proof\.rs.*>::prove_with_rng$')
-    # (1) argument checks at the head: openings.len() != commitments.len() -> Err; degree mismatch -> Err; checked_mul
-    ev = Evaluator(f)
-    stop1 = m.anchor(f, r'"Value exceeds bit vector capacity!"', 'value guard message')
-    head1 = f.walk_back(stop1, r'as Iterator>::next\(')
-    paths = ev.run(start='bb0', stops=(head1,))
-    m.note_region(f, 'head: length / degree checks up to the value-guard loop', sorted(set(sum([p.trace for p in paths], []))))
-    syms = {k[0]: v for k, v in ev.sym_decl.items()}
-    lens = {k: v for k, v in syms.items() if k.startswith('len(')}
-    l_open = [v for k, v in lens.items() if re.search(r'\(\*_3@', k)]
-    l_comm = [v for k, v in lens.items() if re.search(r'\(\*_2@', k)]
-    if len(l_open) != 1 or len(l_comm) != 1:
-        raise lib.Inconclusive('prove_with_rng head: length symbols %s' % sorted(lens))
-    lo, lc = l_open[0].e, l_comm[0].e
-    cmpb = [o for p in paths for o in p.obs if o['kind'] == 'cmp']
-    reach = [z3.And(*p.pc) for p in paths if p.end == ('stop', head1)]
-    errs = [p for p in paths if p.end[0] == 'return']
-    bl = [v for k, v in syms.items() if 'bit_length' in k]
-    if len(bl) != 1:
-        raise lib.Inconclusive('bit_length symbol')
-    n = bl[0].e
-    degree_ne = [o['result'] for p in paths for o in p.obs if o['kind'] == 'cmp' and 'ExtensionDegree' in o['callee']]
-    if not degree_ne:
-        raise lib.Inconclusive('degree comparison not observed')
-    dne = degree_ne[0]
-    mulfits = z3.ULE(z3.ZeroExt(64, n) * z3.ZeroExt(64, lc), z3.ZeroExt(64, z3.BitVecVal(-1, 64)))
-    spec = z3.And(lo == lc, z3.Not(dne), mulfits)
-    m.oblige('prove_with_rng proceeds past its head iff #openings == #commitments, degrees equal, bit_length*#commitments fits (all usize)', [z3.Or(reach) != spec],
-             key='C06:head', pred='prover_accepts_invalid', cfg={'scenario': 'batch', 'n': 8, 'x': 1, 'members': [{'m': 2, 'cap': 2, 'witness_tamper': {'op': 'drop_opening'}}], 'prove_only': True})
-    # (2) value guard loop body: Err iff bit_length < 64 and v >= 2^bit_length
-    ev = Evaluator(f)
-    lp = ev.run(start=head1, stops=(m.loop_exit(f, head1),))
-    m.note_region(f, 'value guard loop body (one iteration from an arbitrary state)', sorted(set(sum([p.trace for p in lp], []))))
-    syms = {k[0]: v for k, v in ev.sym_decl.items()}
-    vv = [v for k, v in syms.items() if re.search(r'\.0: u64', k) or k.endswith('.0')]
-    vv = [v for v in vv if isinstance(v, BV) and v.ty == 'u64']
-    nn = [v for k, v in syms.items() if re.match(r'_\d+@0$', k) and isinstance(v, BV) and v.ty == 'usize']
-    if len(vv) != 1 or len(nn) != 1:
-        raise lib.Inconclusive('value guard: symbols v=%s n=%s' % (vv, nn))
-    v, n = vv[0].e, nn[0].e
-    err_pc, cont_pc = [], []
-    for p in lp:
-        nexts = [o for o in p.obs if o['kind'] == 'next']
-        if not nexts:
-            continue
-        some = nexts[0]['some']
-        pcs = [c for c in p.pc]
-        if p.end[0] == 'return':
+    def _s0():
+        f = m.fn(r'range_proof\.rs.*>::prove_with_rng$')
+        # (1) argument checks at the head: openings.len() != commitments.len() -> Err; degree mismatch -> Err; checked_mul
+        ev = Evaluator(f)
+        stop1 = m.anchor(f, r'"Value exceeds bit vector capacity!"', 'value guard message')
+        head1 = f.walk_back(stop1, r'as Iterator>::next\(')
+        paths = ev.run(start='bb0', stops=(head1,))
+        m.note_region(f, 'head: length / degree checks up to the value-guard loop', sorted(set(sum([p.trace for p in paths], []))))
+        syms = {k[0]: v for k, v in ev.sym_decl.items()}
+        lens = {k: v for k, v in syms.items() if k.startswith('len(')}
+        l_open = [v for k, v in lens.items() if re.search(r'\(\*_3@', k)]
+        l_comm = [v for k, v in lens.items() if re.search(r'\(\*_2@', k)]
+        if len(l_open) != 1 or len(l_comm) != 1:
+            raise lib.Inconclusive('prove_with_rng head: length symbols %s' % sorted(lens))
+        lo, lc = l_open[0].e, l_comm[0].e
+        cmpb = [o for p in paths for o in p.obs if o['kind'] == 'cmp']
+        reach = [z3.And(*p.pc) for p in paths if p.end == ('stop', head1)]
+        errs = [p for p in paths if p.end[0] == 'return']
+        bl = [v for k, v in syms.items() if 'bit_length' in k]
+        if len(bl) != 1:
+            raise lib.Inconclusive('bit_length symbol')
+        n = bl[0].e
+        degree_ne = [o['result'] for p in paths for o in p.obs if o['kind'] == 'cmp' and 'ExtensionDegree' in o['callee']]
+        if not degree_ne:
+            raise lib.Inconclusive('degree comparison not observed')
+        dne = degree_ne[0]
+        mulfits = z3.ULE(z3.ZeroExt(64, n) * z3.ZeroExt(64, lc), z3.ZeroExt(64, z3.BitVecVal(-1, 64)))
+        spec = z3.And(lo == lc, z3.Not(dne), mulfits)
+        m.oblige('prove_with_rng proceeds past its head iff #openings == #commitments, degrees equal, bit_length*#commitments fits (all usize)', [z3.Or(reach) != spec],
+                 key='C06:head', pred='prover_accepts_invalid', cfg={'scenario': 'batch', 'n': 8, 'x': 1, 'members': [{'m': 2, 'cap': 2, 'witness_tamper': {'op': 'drop_opening'}}], 'prove_only': True})
+    m.section('prove_with_rng head (counts, degree, size)', _s0)
+    def _s1():
+        f = m.fn(r'range_proof\.rs.*>::prove_with_rng$')
+        # (2) value guard loop body: Err iff bit_length < 64 and v >= 2^bit_length
+        stop1 = m.anchor(f, r'"Value exceeds bit vector capacity!"', 'value guard message')
+        head1 = f.walk_back(stop1, r'as Iterator>::next\(')
+        ev = Evaluator(f)
+        lp = ev.run(start=head1, stops=(m.loop_exit(f, head1),))
+        m.note_region(f, 'value guard loop body (one iteration from an arbitrary state)', sorted(set(sum([p.trace for p in lp], []))))
+        syms = {k[0]: v for k, v in ev.sym_decl.items()}
+        vv = [v for k, v in syms.items() if re.search(r'\.0: u64', k) or k.endswith('.0')]
+        vv = [v for v in vv if isinstance(v, BV) and v.ty == 'u64']
+        nn = [v for k, v in syms.items() if re.match(r'_\d+@0$', k) and isinstance(v, BV) and v.ty == 'usize']
+        if len(vv) != 1 or len(nn) != 1:
+            raise lib.Inconclusive('value guard: symbols v=%s n=%s' % (vv, nn))
+        v, n = vv[0].e, nn[0].e
+        err_pc, cont_pc = [], []
+        for p in lp:
+            nexts = [o for o in p.obs if o['kind'] == 'next']
+            if not nexts:
+                continue
+            some = nexts[0]['some']
+            pcs = [c for c in p.pc]
+            if p.end[0] == 'return':
+                r = p.env.get('_0')
+                if isinstance(r, Res) and z3.is_false(r.ok):
+                    err_pc.append(z3.And(*pcs))
+            elif p.end[0] == 'backedge':
+                cont_pc.append(z3.And(*pcs))
+        some = [o['some'] for p in lp for o in p.obs if o['kind'] == 'next'][0]
+        spec_err = z3.Or([z3.And(n == k, z3.UGE(v, z3.BitVecVal(1 << k, 64))) for k in range(64)])
+        valid_n = z3.Or([n == k for k in (1, 2, 4, 8, 16, 32, 64)])   # every constructed parameter set (C17 params-domain)
+        m.oblige('value guard: for an arbitrary opening the prover returns Err iff value >= 2^bit_length (all u64 values, every constructible bit length)',
+                 [valid_n, some, z3.Or(err_pc) != spec_err], key='C06:value-guard', pred='prover_guard_mismatch',
+                 cfg=lambda mod: {'n': bvint(mod, str(n)), 'v': bvint(mod, str(v)), 'p': None}, detail={'what': 'value'})
+        m.oblige('value guard: otherwise the loop continues with the next opening', [some, z3.Or(cont_pc + err_pc) != z3.BoolVal(True)], key='C06:value-guard')
+        m.no_overflow(lp, 'value guard loop', 'C06:value-guard')
+    m.section('prove_with_rng value guard', _s1)
+    def _s2():
+        f = m.fn(r'range_proof\.rs.*>::prove_with_rng$')
+        # (3) opening check loop body: Err(InvalidArgument) iff commit(...) != commitment; commit errors are propagated
+        stop3 = m.anchor(f, r'"Witness opening is invalid!"', 'opening check message')
+        head3 = f.walk_back(stop3, r'as Iterator>::next\(')
+        ev = Evaluator(f)
+        lp = ev.run(start=head3, stops=(m.loop_exit(f, head3),))
+        m.note_region(f, 'opening check loop body', sorted(set(sum([p.trace for p in lp], []))))
+        shapes = set()
+        for p in lp:
+            commit = [o for o in p.obs if o['kind'] == 'call' and o['callee'].endswith('::commit::<Scalar>') or (o['kind'] == 'call' and re.search(r'PedersenGens::<P>::commit', o['callee']))]
+            cmp_ = [o for o in p.obs if o['kind'] == 'cmp']
+            sf = [o for o in p.obs if o['kind'] == 'scalar_from']
             r = p.env.get('_0')
-            if isinstance(r, Res) and z3.is_false(r.ok):
-                err_pc.append(z3.And(*pcs))
-        elif p.end[0] == 'backedge':
-            cont_pc.append(z3.And(*pcs))
-    some = [o['some'] for p in lp for o in p.obs if o['kind'] == 'next'][0]
-    spec_err = z3.Or([z3.And(n == k, z3.UGE(v, z3.BitVecVal(1 << k, 64))) for k in range(64)])
-    valid_n = z3.Or([n == k for k in (1, 2, 4, 8, 16, 32, 64)])   # every constructed parameter set (C17 params-domain)
-    m.oblige('value guard: for an arbitrary opening the prover returns Err iff value >= 2^bit_length (all u64 values, every constructible bit length)',
-             [valid_n, some, z3.Or(err_pc) != spec_err], key='C06:value-guard', pred='prover_guard_mismatch',
-             cfg=lambda mod: {'n': bvint(mod, str(n)), 'v': bvint(mod, str(v)), 'p': None}, detail={'what': 'value'})
-    m.oblige('value guard: otherwise the loop continues with the next opening', [some, z3.Or(cont_pc + err_pc) != z3.BoolVal(True)], key='C06:value-guard')
-    m.no_overflow(lp, 'value guard loop', 'C06:value-guard')
-    # (3) opening check loop body: Err(InvalidArgument) iff commit(...) != commitment; commit errors are propagated
-    stop3 = m.anchor(f, r'"Witness opening is invalid!"', 'opening check message')
-    head3 = f.walk_back(stop3, r'as Iterator>::next\(')
-    ev = Evaluator(f)
-    lp = ev.run(start=head3, stops=(m.loop_exit(f, head3),))
-    m.note_region(f, 'opening check loop body', sorted(set(sum([p.trace for p in lp], []))))
-    shapes = set()
-    for p in lp:
-        commit = [o for o in p.obs if o['kind'] == 'call' and o['callee'].endswith('::commit::<Scalar>') or (o['kind'] == 'call' and re.search(r'PedersenGens::<P>::commit', o['callee']))]
-        cmp_ = [o for o in p.obs if o['kind'] == 'cmp']
-        sf = [o for o in p.obs if o['kind'] == 'scalar_from']
-        r = p.env.get('_0')
-        if p.end[0] == 'backedge' and commit:
-            # continuing: comparison happened and said "equal"
-            ok = len(cmp_) == 1 and any(z3.eq(c, z3.Not(cmp_[0]['result'])) or z3.eq(z3.simplify(c), z3.simplify(z3.Not(cmp_[0]['result']))) for c in p.pc)
-            shapes.add(('continue', ok))
-            # the committed value is the opening's own value; the blindings are the opening's own vector; compared with the zipped commitment
-            a = sf[0]['args'][0] if sf else None
-            src_ok = isinstance(a, BV) and re.search(r'\.0: u64', str(a.e)) is not None
-            shapes.add(('value-source', src_ok))
-        if p.end[0] == 'return' and commit and cmp_:
-            ok = isinstance(r, Res) and z3.is_false(r.ok) and isinstance(r.errv, Adt) and 'InvalidArgument' in r.errv.name
-            shapes.add(('mismatch->Err', ok))
-    m.ctx.expect(('continue', True) in shapes and ('mismatch->Err', True) in shapes and ('continue', False) not in shapes and ('mismatch->Err', False) not in shapes and ('value-source', False) not in shapes,
-                 'C06:opening-check', 'opening check loop: an iteration does not compare commit(opening) with the statement commitment, or continues on mismatch (%s)' % sorted(shapes), None,
-                 'prover_accepts_invalid', {'replay_cfg': {'scenario': 'batch', 'n': 8, 'x': 2, 'members': [{'m': 2, 'cap': 2, 'witness_tamper': {'op': 'swap_openings', 'i': 0, 'j': 1}}], 'prove_only': True}})
-    # the loop zips openings with commitments element-wise (not sums)
-    it = re.search(r'<(.*?) as Iterator>::next', f.blocks[head3][1])
-    m.ctx.expect(it is not None and it.group(1).startswith('std::iter::Zip<std::slice::Iter<\'_, CommitmentOpening>, std::slice::Iter<\'_, P>>'), 'C06:opening-check',
-                 'opening check does not iterate over (opening, commitment) pairs: %s' % (it.group(1) if it else None), None, 'prover_accepts_invalid',
-                 {'replay_cfg': {'scenario': 'batch', 'n': 8, 'x': 2, 'members': [{'m': 2, 'cap': 2, 'witness_tamper': {'op': 'swap_openings', 'i': 0, 'j': 1}}], 'prove_only': True}})
-    # (4) promise region + (5) bit loop
-    stop4 = m.anchor(f, r'"Minimum value is larger than value"', 'promise message')
-    head4 = f.walk_back(stop4, r'as Iterator>::next\(')
-    bit_from = f.find_blocks(r'<Scalar as From<u64>>::from')
-    ev = Evaluator(f)
-    lp = ev.run(start=head4, stops=(m.loop_exit(f, head4),))
-    m.note_region(f, 'promise offset + bit decomposition loop body', sorted(set(sum([p.trace for p in lp], []))))
-    syms = {k[0]: v for k, v in ev.sym_decl.items()}
-    cand = {k: v for k, v in syms.items() if isinstance(v, BV) and v.ty == 'u64'}
-    # symbols: value = (*_115) deref of zipped &u64, promise = payload of Some
-    val = [v for k, v in cand.items() if re.search(r'^\(\*_\d+@\d+\)$', k) or re.search(r'deref', k)]
-    if len(cand) != 2:
-        raise lib.Inconclusive('promise region: expected two u64 symbols, got %s' % sorted(cand))
-    names = sorted(cand)
-    pv = [cand[k] for k in names if 'Some' in k]
-    vv = [cand[k] for k in names if 'Some' not in k]
-    if len(pv) != 1 or len(vv) != 1:
-        raise lib.Inconclusive('promise region symbols: %s' % names)
-    pr, v = pv[0].e, vv[0].e
-    nsym = [s for k, s in syms.items() if re.match(r'_\d+@0$', k) and isinstance(s, BV) and s.ty == 'usize']
-    err_some, pushes_ok = [], True
-    n_bit_paths = 0
-    for p in lp:
-        r = p.env.get('_0')
-        if p.end[0] == 'return' and isinstance(r, Res) and z3.is_false(r.ok) and isinstance(r.errv, Adt) and 'InvalidArgument' in r.errv.name:
-            err_some.append(z3.And(*p.pc))
-        sfs = [o for o in p.obs if o['kind'] == 'scalar_from']
-        if len(sfs) == 2:
-            n_bit_paths += 1
-            rn = [o for o in p.obs if o['kind'] == 'range_next']
-            pushes = [o for o in p.obs if o['kind'] == 'call' and o['callee'].endswith('::push')]
-            subs = [o for o in p.obs if o['kind'] == 'call' and 'as Sub>::sub' in o['callee']]
-            if len(rn) != 1 or len(pushes) != 2 or len(subs) != 1 or rn[0]['range'] is None:
-                raise lib.Inconclusive('bit loop: observation shape %d %d %d' % (len(rn), len(pushes), len(subs)))
-            i = rn[0]['item'].e
-            rng = rn[0]['range']
-            # Some-promise path or None path?
-            has_p = any(str(pr) in str(c) for c in p.pc) or any(str(pr) in str(s['args'][0].e) for s in sfs)
-            off = (v - pr) if has_p else v
-            for s_ in sfs:
-                a = s_['args'][0]
-                if not isinstance(a, BV):
-                    raise lib.Inconclusive('bit loop: opaque argument of From<u64>')
-                m.oblige('bit loop: From<u64> argument == ((value - promise) >> i) & 1 for all value, promise, i < bit_length' if has_p else
-                         'bit loop: From<u64> argument == (value >> i) & 1 for all value, i < bit_length (no promise)',
-                         p.pc + [a.e != (z3.LShR(off, i) & 1)], key='C06:bit-decomposition', pred='honest_rejected',
-                         cfg={'scenario': 'batch', 'n': 8, 'x': 1, 'members': [{'m': 1, 'cap': 1, 'promises': ['3']}], 'actions': ['VerifyOnly']})
-            # range is 0..bit_length
-            m.oblige('bit loop: the index ranges over 0..bit_length', p.pc + [z3.Or(rng.fields[0].e != 0, rng.fields[1].e != nsym[0].e if nsym else z3.BoolVal(False))], key='C06:bit-decomposition',
-                     pred='honest_rejected', cfg={'scenario': 'batch', 'n': 8, 'x': 1, 'members': [{'m': 1, 'cap': 1}], 'actions': ['VerifyOnly']})
-            # first push: a_li gets from(bit); second push: a_ri gets from(bit) - ONE; two distinct vectors
-            v1, v2 = pushes[0]['args'][0], pushes[1]['args'][0]
-            distinct = isinstance(v1, Ref) and isinstance(v2, Ref) and v1.place != v2.place
-            first_is_from = pushes[0]['args'][1] is sfs[0]['result']
-            sub_ok = subs[0]['args'][0] is sfs[1]['result'] and 'Scalar::ONE' in str(subs[0]['argtoks'][1]) and pushes[1]['args'][1] is subs[0]['result']
-            pushes_ok = pushes_ok and distinct and first_is_from and sub_ok
-    m.ctx.expect(n_bit_paths >= 2 and pushes_ok, 'C06:bit-decomposition', 'bit loop: the pushes are not (a_li <- bit, a_ri <- bit - 1) into two distinct vectors', None, 'honest_rejected',
-                 {'replay_cfg': {'scenario': 'batch', 'n': 8, 'x': 1, 'members': [{'m': 1, 'cap': 1}], 'actions': ['VerifyOnly']}})
-    some_p = z3.Bool('dummy')
-    m.oblige('promise offset: Err(InvalidArgument) iff promise > value (all u64 pairs)', [z3.Or(err_some) != z3.And(z3.UGT(pr, v), z3.Or(err_some + [z3.UGT(pr, v)]))] if False else
-             [z3.Xor(z3.Or(err_some), z3.And(_some_promise(lp, pr), z3.UGT(pr, v)))], key='C06:promise-guard', pred='prover_guard_mismatch',
-             cfg=lambda mod: {'n': 64, 'v': bvint(mod, str(v)), 'p': bvint(mod, str(pr))}, detail={'what': 'promise'})
-    # invariant of every constructed RangeParameters (C17 params-domain obligation): bit_length <= 64
-    m.no_overflow(lp, 'promise/bit loop', 'C06:bit-decomposition', assume=[z3.ULE(nsym[0].e, 64)] if nsym else [])
-    # recomposition fact: sum_i ((o >> i) & 1) 2^i == o for o < 2^n (pure bit-vector arithmetic), n in {1,2,4,8,16,32,64}
-    for nb in (1, 2, 4, 8, 16, 32, 64):
-        o = z3.BitVec('o', 64)
-        tot = z3.BitVecVal(0, 64)
-        for i in range(nb):
-            tot = tot + ((z3.LShR(o, i) & 1) << i)
-        dom = [z3.ULT(o, z3.BitVecVal(1 << nb, 64))] if nb < 64 else []
-        m.oblige('recomposition: sum_{i<%d} bit_i 2^i == offset for every offset < 2^%d' % (nb, nb), dom + [tot != o], key='C06:bit-decomposition')
+            if p.end[0] == 'backedge' and commit:
+                # continuing: comparison happened and said "equal"
+                ok = len(cmp_) == 1 and any(z3.eq(c, z3.Not(cmp_[0]['result'])) or z3.eq(z3.simplify(c), z3.simplify(z3.Not(cmp_[0]['result']))) for c in p.pc)
+                shapes.add(('continue', ok))
+                # the committed value is the opening's own value; the blindings are the opening's own vector; compared with the zipped commitment
+                a = sf[0]['args'][0] if sf else None
+                src_ok = isinstance(a, BV) and re.search(r'\.0: u64', str(a.e)) is not None
+                shapes.add(('value-source', src_ok))
+            if p.end[0] == 'return' and commit and cmp_:
+                ok = isinstance(r, Res) and z3.is_false(r.ok) and isinstance(r.errv, Adt) and 'InvalidArgument' in r.errv.name
+                shapes.add(('mismatch->Err', ok))
+        m.expect(('continue', True) in shapes and ('mismatch->Err', True) in shapes and ('continue', False) not in shapes and ('mismatch->Err', False) not in shapes and ('value-source', False) not in shapes,
+                     'C06:opening-check', 'opening check loop: an iteration does not compare commit(opening) with the statement commitment, or continues on mismatch (%s)' % sorted(shapes), None,
+                     'prover_accepts_invalid', {'replay_cfg': {'scenario': 'batch', 'n': 8, 'x': 2, 'members': [{'m': 2, 'cap': 2, 'witness_tamper': {'op': 'swap_openings', 'i': 0, 'j': 1}}], 'prove_only': True}})
+        # the loop zips openings with commitments element-wise (not sums)
+        it = re.search(r'<(.*?) as Iterator>::next', f.blocks[head3][1])
+        m.expect(it is not None and it.group(1).startswith('std::iter::Zip<std::slice::Iter<\'_, CommitmentOpening>, std::slice::Iter<\'_, P>>'), 'C06:opening-check',
+                     'opening check does not iterate over (opening, commitment) pairs: %s' % (it.group(1) if it else None), None, 'prover_accepts_invalid',
+                     {'replay_cfg': {'scenario': 'batch', 'n': 8, 'x': 2, 'members': [{'m': 2, 'cap': 2, 'witness_tamper': {'op': 'swap_openings', 'i': 0, 'j': 1}}], 'prove_only': True}})
+    m.section('prove_with_rng opening check', _s2)
+    def _s3():
+        f = m.fn(r'range_proof\.rs.*>::prove_with_rng$')
+        # (4) promise region + (5) bit loop
+        stop4 = m.anchor(f, r'"Minimum value is larger than value"', 'promise message')
+        head4 = f.walk_back(stop4, r'as Iterator>::next\(')
+        bit_from = f.find_blocks(r'<Scalar as From<u64>>::from')
+        ev = Evaluator(f)
+        lp = ev.run(start=head4, stops=(m.loop_exit(f, head4),))
+        m.note_region(f, 'promise offset + bit decomposition loop body', sorted(set(sum([p.trace for p in lp], []))))
+        syms = {k[0]: v for k, v in ev.sym_decl.items()}
+        cand = {k: v for k, v in syms.items() if isinstance(v, BV) and v.ty == 'u64'}
+        # symbols: value = (*_115) deref of zipped &u64, promise = payload of Some
+        val = [v for k, v in cand.items() if re.search(r'^\(\*_\d+@\d+\)$', k) or re.search(r'deref', k)]
+        if len(cand) != 2:
+            raise lib.Inconclusive('promise region: expected two u64 symbols, got %s' % sorted(cand))
+        names = sorted(cand)
+        pv = [cand[k] for k in names if 'Some' in k]
+        vv = [cand[k] for k in names if 'Some' not in k]
+        if len(pv) != 1 or len(vv) != 1:
+            raise lib.Inconclusive('promise region symbols: %s' % names)
+        pr, v = pv[0].e, vv[0].e
+        nsym = [s for k, s in syms.items() if re.match(r'_\d+@0$', k) and isinstance(s, BV) and s.ty == 'usize']
+        err_some, pushes_ok = [], True
+        n_bit_paths = 0
+        for p in lp:
+            r = p.env.get('_0')
+            if p.end[0] == 'return' and isinstance(r, Res) and z3.is_false(r.ok) and isinstance(r.errv, Adt) and 'InvalidArgument' in r.errv.name:
+                err_some.append(z3.And(*p.pc))
+            sfs = [o for o in p.obs if o['kind'] == 'scalar_from']
+            if len(sfs) == 2:
+                n_bit_paths += 1
+                rn = [o for o in p.obs if o['kind'] == 'range_next']
+                pushes = [o for o in p.obs if o['kind'] == 'call' and o['callee'].endswith('::push')]
+                subs = [o for o in p.obs if o['kind'] == 'call' and 'as Sub>::sub' in o['callee']]
+                if len(rn) != 1 or len(pushes) != 2 or len(subs) != 1 or rn[0]['range'] is None:
+                    raise lib.Inconclusive('bit loop: observation shape %d %d %d' % (len(rn), len(pushes), len(subs)))
+                i = rn[0]['item'].e
+                rng = rn[0]['range']
+                # Some-promise path or None path?
+                has_p = any(str(pr) in str(c) for c in p.pc) or any(str(pr) in str(s['args'][0].e) for s in sfs)
+                off = (v - pr) if has_p else v
+                for s_ in sfs:
+                    a = s_['args'][0]
+                    if not isinstance(a, BV):
+                        raise lib.Inconclusive('bit loop: opaque argument of From<u64>')
+                    m.oblige('bit loop: From<u64> argument == ((value - promise) >> i) & 1 for all value, promise, i < bit_length' if has_p else
+                             'bit loop: From<u64> argument == (value >> i) & 1 for all value, i < bit_length (no promise)',
+                             p.pc + [a.e != (z3.LShR(off, i) & 1)], key='C06:bit-decomposition', pred='honest_rejected',
+                             cfg={'scenario': 'batch', 'n': 8, 'x': 1, 'members': [{'m': 1, 'cap': 1, 'promises': ['3']}], 'actions': ['VerifyOnly']})
+                # range is 0..bit_length
+                m.oblige('bit loop: the index ranges over 0..bit_length', p.pc + [z3.Or(rng.fields[0].e != 0, rng.fields[1].e != nsym[0].e if nsym else z3.BoolVal(False))], key='C06:bit-decomposition',
+                         pred='honest_rejected', cfg={'scenario': 'batch', 'n': 8, 'x': 1, 'members': [{'m': 1, 'cap': 1}], 'actions': ['VerifyOnly']})
+                # first push: a_li gets from(bit); second push: a_ri gets from(bit) - ONE; two distinct vectors
+                v1, v2 = pushes[0]['args'][0], pushes[1]['args'][0]
+                distinct = isinstance(v1, Ref) and isinstance(v2, Ref) and v1.place != v2.place
+                first_is_from = pushes[0]['args'][1] is sfs[0]['result']
+                sub_ok = subs[0]['args'][0] is sfs[1]['result'] and 'Scalar::ONE' in str(subs[0]['argtoks'][1]) and pushes[1]['args'][1] is subs[0]['result']
+                pushes_ok = pushes_ok and distinct and first_is_from and sub_ok
+        m.expect(n_bit_paths >= 2 and pushes_ok, 'C06:bit-decomposition', 'bit loop: the pushes are not (a_li <- bit, a_ri <- bit - 1) into two distinct vectors', None, 'honest_rejected',
+                     {'replay_cfg': {'scenario': 'batch', 'n': 8, 'x': 1, 'members': [{'m': 1, 'cap': 1}], 'actions': ['VerifyOnly']}})
+        some_p = z3.Bool('dummy')
+        m.oblige('promise offset: Err(InvalidArgument) iff promise > value (all u64 pairs)', [z3.Or(err_some) != z3.And(z3.UGT(pr, v), z3.Or(err_some + [z3.UGT(pr, v)]))] if False else
+                 [z3.Xor(z3.Or(err_some), z3.And(_some_promise(lp, pr), z3.UGT(pr, v)))], key='C06:promise-guard', pred='prover_guard_mismatch',
+                 cfg=lambda mod: {'n': 64, 'v': bvint(mod, str(v)), 'p': bvint(mod, str(pr))}, detail={'what': 'promise'})
+        # invariant of every constructed RangeParameters (C17 params-domain obligation): bit_length <= 64
+        m.no_overflow(lp, 'promise/bit loop', 'C06:bit-decomposition', assume=[z3.ULE(nsym[0].e, 64)] if nsym else [])
+    m.section('prove_with_rng promise offset + bit decomposition', _s3)
+    def _s4():
+        f = m.fn(r'range_proof\.rs.*>::prove_with_rng$')
+        # recomposition fact: sum_i ((o >> i) & 1) 2^i == o for o < 2^n (pure bit-vector arithmetic), n in {1,2,4,8,16,32,64}
+        for nb in (1, 2, 4, 8, 16, 32, 64):
+            o = z3.BitVec('o', 64)
+            tot = z3.BitVecVal(0, 64)
+            for i in range(nb):
+                tot = tot + ((z3.LShR(o, i) & 1) << i)
+            dom = [z3.ULT(o, z3.BitVecVal(1 << nb, 64))] if nb < 64 else []
+            m.oblige('recomposition: sum_{i<%d} bit_i 2^i == offset for every offset < 2^%d' % (nb, nb), dom + [tot != o], key='C06:bit-decomposition')
+    m.section('bit recomposition lemma', _s4)
     ctx.extra.setdefault('engine_m', {})['regions'] = m.regions
     ctx.extra['engine_m']['mir_dump_s'] = round(_cache.get('dump_s', 0), 1)
     ctx.functions |= {r['function'] for r in m.regions}
@@ -509,131 +571,150 @@ def _some_promise(paths, pr):
 # ================================================================================================ C16 / C07 / C12 integer guards
 def c16_guards(ctx):
     try:
-        _c16_guards(ctx)
+        get_mir()
     except lib.Inconclusive as e:
-        ctx.inconclusive.append('Engine M: %s' % e)
+        ctx.inconclusive.append(str(e))
+        return
+    try:
+        _c16_guards(ctx)
+    except (lib.Inconclusive, mirx.Inconclusive) as e:
+        ctx.m_note('integer guards', str(e))
+    except Exception as e:
+        ctx.m_note('integer guards', 'the evaluator could not process this code shape (%s: %s)' % (type(e).__name__, str(e)[:200]))
 
 
 def _c16_guards(ctx):
     m = M(ctx)
     U = lambda x: z3.ZeroExt(64, x)
     MAXU = z3.ZeroExt(64, z3.BitVecVal(-1, 64))
-    # ---- (a) verify: round-count region
-    f = m.fn(r'range_proof\.rs.*>::verify$')
-    a = m.anchor(f, r'"Vector L/R length not adequate"', 'round count message')
-    start = f.walk_back(a, r'<u32 as TryFrom<usize>>::try_from\(')
-    sw = [b for b in f.preds.get(a, ()) if 'switchInt' in f.blocks[b][1]]
-    if start is None or len(sw) != 1:
-        raise lib.Inconclusive('round-count region anchors')
-    okb = re.search(r'\[0: (bb\d+)', f.blocks[sw[0]][1]).group(1)
-    ev = Evaluator(f)
-    paths = ev.run(start=start, stops=(okb,))
-    m.note_region(f, 'round-count check (u32::try_from, leading_zeros, checked_shl, comparison with full_length)', sorted(set(sum([p.trace for p in paths], []))))
-    us = [v for k, v in ev.sym_decl.items() if isinstance(v, BV) and v.ty == 'usize' and re.match(r'_\d+@0$', k[0])]
-    if len(us) != 2:
-        raise lib.Inconclusive('round-count region: expected rounds and full_length symbols, got %s' % [k for k in ev.sym_decl])
-    # rounds is the argument of try_from: the symbol that appears in the first path condition
-    tf = re.search(r'try_from\(copy (_\d+)\)', f.blocks[start][1]).group(1)
-    rounds = ev.sym(tf + '@0', 'usize').e
-    full = [v.e for v in us if str(v.e) != str(rounds)][0]
-    reach = [z3.And(*p.pc) for p in paths if p.end == ('stop', okb)]
-    errs = [p for p in paths if p.end[0] == 'return']
-    for p in errs:
-        r = p.env.get('_0')
-        if not (isinstance(r, Res) and z3.is_false(r.ok)):
-            raise lib.Inconclusive('round-count region: a returning path is not an Err')
-    spec = z3.Or([z3.And(rounds == k, full == z3.BitVecVal(1 << k, 64)) for k in range(64)])
-    m.oblige('verify continues past the round-count check iff 2^rounds == full_length (every usize rounds incl. huge values, every usize full_length)', [z3.Or(reach) != spec],
-             key='C16:round-count', pred=None)
-    m.oblige('round-count check: paths exhaustive (continue or Err, nothing else)', [z3.Not(pc_union(paths))], key='C16:round-count')
-    m.no_overflow(paths, 'round-count check', 'C16:round-count')
-    # ---- (b) compute_generator_padding, whole function, integer encoding (64-bit products stall a bit-blasting back end)
-    f = m.fn(r'^compute_generator_padding$')
-    ev = Evaluator(f, int_mode=True)
-    paths = ev.run()
-    m.note_region(f, 'whole function (mathematical integers with usize range constraints; only checked arithmetic occurs)', sorted(f.blocks))
-    n, mm, c = [ev.sym('_%d@0' % i, 'usize').e for i in (1, 2, 3)]
-    MAXI = (1 << 64) - 1
-    spec_ok = z3.And(2 * n <= MAXI, 2 * n * c <= MAXI, 2 * n * mm <= MAXI, 2 * n * c - 2 * n * mm >= 0)
-    bad = []
-    for p in paths:
-        r = p.env['_0']
-        pc = z3.And(*p.pc) if p.pc else z3.BoolVal(True)
-        val_bad = z3.BoolVal(False)
-        if r.okv is not None and isinstance(r.okv, mirx.IV):
-            val_bad = z3.And(r.ok, r.okv.e != 2 * n * c - 2 * n * mm)
-        bad.append(z3.And(pc, z3.Or(r.ok != spec_ok, val_bad)))
-    m.oblige('compute_generator_padding == Ok(2n(c-m)) iff no overflow and c >= m, Err otherwise (all usize triples)', ev.domain + [z3.Or(bad)], key='C16:padding', pred=None)
-    m.oblige('compute_generator_padding: paths exhaustive', ev.domain + [z3.Not(pc_union(paths))], key='C16:padding')
-    # ---- (c) AggregatedGensIter::next / size_hint: no overflow, next returns None once party_idx >= m
-    f = m.fn(r'aggregated_gens_iter\.rs.*>::next$')
-    ev = Evaluator(f)
-    paths = ev.run()
-    m.note_region(f, 'whole function', sorted(f.blocks))
-    m.no_overflow(paths, 'AggregatedGensIter::next', 'C16:gens-iter')
-    m.ctx.expect(all(p.end[0] == 'return' for p in paths) and len(paths) >= 3, 'C16:gens-iter', 'AggregatedGensIter::next: unexpected path shapes', None, None)
-    f = m.fn(r'aggregated_gens_iter\.rs.*>::size_hint$')
-    ev = Evaluator(f)
-    paths = ev.run()
-    m.note_region(f, 'whole function', sorted(f.blocks))
-    m.no_overflow(paths, 'AggregatedGensIter::size_hint', 'C16:gens-iter')
-    # ---- (d) encode_usize: Err iff the index does not fit in 32 bits
-    f = m.fn(r'^encode_usize$')
-    ev = Evaluator(f)
-    paths = ev.run()
-    m.note_region(f, 'whole function', sorted(f.blocks))
-    x = ev.sym('_1@0', 'usize').e
-    bad = []
-    for p in paths:
-        r = p.env['_0']
-        pc = z3.And(*p.pc) if p.pc else z3.BoolVal(True)
-        if not isinstance(r, Res):
-            raise lib.Inconclusive('encode_usize: opaque result')
-        bad.append(z3.And(pc, r.ok != z3.ULE(x, z3.BitVecVal((1 << 32) - 1, 64))))
-    m.oblige('encode_usize == Ok iff index <= u32::MAX (all usize)', [z3.Or(bad)], key='C16:encode-usize', pred=None)
-    # ---- (e) the verifier's promise guard (consistency function): Err iff bit_length < 64 and promise >= 2^bit_length
-    f = m.fn(r'range_proof\.rs.*>::verify_statements_and_generators_consistency$')
-    a = m.anchor(f, r'"Minimum value promise exceeds bit vector capacity"', 'promise guard message')
-    head = f.walk_back(a, r'as Iterator>::next\(')
-    ev = Evaluator(f)
-    lp = ev.run(start=head, stops=(m.loop_exit(f, head),))
-    m.note_region(f, 'promise guard loop body (inner loop over Some promises)', sorted(set(sum([p.trace for p in lp], []))))
-    u64s = [v for k, v in ev.sym_decl.items() if isinstance(v, BV) and v.ty == 'u64']
-    ns = [v for k, v in ev.sym_decl.items() if isinstance(v, BV) and v.ty == 'usize' and re.match(r'_\d+@0$', k[0])]
-    if len(u64s) != 1 or len(ns) != 1:
-        raise lib.Inconclusive('verifier promise guard: symbols %s' % [k for k in ev.sym_decl])
-    pv, n = u64s[0].e, ns[0].e
-    some = [o['some'] for p in lp for o in p.obs if o['kind'] == 'next']
-    err = [z3.And(*p.pc) for p in lp if p.end[0] == 'return' and isinstance(p.env.get('_0'), Res) and z3.is_false(p.env['_0'].ok)]
-    spec_err = z3.Or([z3.And(n == k, z3.UGE(pv, z3.BitVecVal(1 << k, 64))) for k in range(64)])
-    valid_n = z3.Or([n == k for k in (1, 2, 4, 8, 16, 32, 64)])
-    m.oblige('verifier promise guard: Err iff promise >= 2^bit_length, for all u64 promises and every constructible bit length', [valid_n, some[0], z3.Or(err) != spec_err],
-             key='C07:promise-guard', pred=None)
-    m.no_overflow(lp, 'verifier promise guard', 'C07:promise-guard')
-    # ---- (f) the s-vector loop of verify (`for i in 1..full_length`): its unchecked `1 << log_i`, `i - j`, `rounds - log_i - 1` cannot overflow
-    f = m.fn(r'range_proof\.rs.*>::verify$')
-    a = m.anchor(f, r'checked_ilog2', 's-vector loop')
-    head = f.walk_back(a, r'<std::ops::Range<usize> as Iterator>::next\(')
-    rb = f.walk_back(head, r'Range::<usize> \{ start: const 1_usize') if head else None
-    if head is None or rb is None:
-        raise lib.Inconclusive('s-vector loop anchors')
-    ev = Evaluator(f)
-    lp = ev.run(start=rb, stops=(m.loop_exit(f, head),))
-    m.note_region(f, 's-vector loop body (index arithmetic with clippy::arithmetic_side_effects allowed)', sorted(set(sum([p.trace for p in lp], []))))
-    rng_obs = [o for p in lp for o in p.obs if o['kind'] == 'range_next' and o['range'] is not None]
-    if not rng_obs:
-        raise lib.Inconclusive('s-vector loop: Range not observed')
-    full = rng_obs[0]['range'].fields[1].e
-    others = [v.e for k, v in ev.sym_decl.items() if isinstance(v, BV) and v.ty == 'usize' and re.match(r'_\d+@0$', k[0]) and str(v.e) != str(full)]
-    if len(others) != 1:
-        raise lib.Inconclusive('s-vector loop: rounds symbol not identified (%s)' % others)
-    rounds = others[0]
-    # invariant established by the round-count guard proved above: full_length == 2^rounds, rounds < 64
-    inv = [z3.ULT(rounds, 64), full == (z3.BitVecVal(1, 64) << rounds)]
-    nass = m.no_overflow(lp, 's-vector loop of verify (given 2^rounds == full_length)', 'C16:s-vector', assume=inv)
-    m.ctx.expect(nass >= 3, 'C16:s-vector', 's-vector loop: expected rustc assertions for the shift and the two subtractions, found %d' % nass, None, None)
-    # no index of s / challenges_sq can be out of range either: the `get(..)` calls return Some on the continuing path (structural: the loop can continue)
-    m.ctx.expect(any(p.end[0] == 'backedge' for p in lp), 'C16:s-vector', 's-vector loop: no continuing path', None, None)
+    def _s0():
+        # ---- (a) verify: round-count region
+        f = m.fn(r'range_proof\.rs.*>::verify$')
+        a = m.anchor(f, r'"Vector L/R length not adequate"', 'round count message')
+        start = f.walk_back(a, r'<u32 as TryFrom<usize>>::try_from\(')
+        sw = [b for b in f.preds.get(a, ()) if 'switchInt' in f.blocks[b][1]]
+        if start is None or len(sw) != 1:
+            raise lib.Inconclusive('round-count region anchors')
+        okb = re.search(r'\[0: (bb\d+)', f.blocks[sw[0]][1]).group(1)
+        ev = Evaluator(f)
+        paths = ev.run(start=start, stops=(okb,))
+        m.note_region(f, 'round-count check (u32::try_from, leading_zeros, checked_shl, comparison with full_length)', sorted(set(sum([p.trace for p in paths], []))))
+        us = [v for k, v in ev.sym_decl.items() if isinstance(v, BV) and v.ty == 'usize' and re.match(r'_\d+@0$', k[0])]
+        if len(us) != 2:
+            raise lib.Inconclusive('round-count region: expected rounds and full_length symbols, got %s' % [k for k in ev.sym_decl])
+        # rounds is the argument of try_from: the symbol that appears in the first path condition
+        tf = re.search(r'try_from\(copy (_\d+)\)', f.blocks[start][1]).group(1)
+        rounds = ev.sym(tf + '@0', 'usize').e
+        full = [v.e for v in us if str(v.e) != str(rounds)][0]
+        reach = [z3.And(*p.pc) for p in paths if p.end == ('stop', okb)]
+        errs = [p for p in paths if p.end[0] == 'return']
+        for p in errs:
+            r = p.env.get('_0')
+            if not (isinstance(r, Res) and z3.is_false(r.ok)):
+                raise lib.Inconclusive('round-count region: a returning path is not an Err')
+        spec = z3.Or([z3.And(rounds == k, full == z3.BitVecVal(1 << k, 64)) for k in range(64)])
+        m.oblige('verify continues past the round-count check iff 2^rounds == full_length (every usize rounds incl. huge values, every usize full_length)', [z3.Or(reach) != spec],
+                 key='C16:round-count', pred='round_count_sweep')
+        m.oblige('round-count check: paths exhaustive (continue or Err, nothing else)', [z3.Not(pc_union(paths))], key='C16:round-count')
+        m.no_overflow(paths, 'round-count check', 'C16:round-count')
+    m.section('verify round-count guard', _s0)
+    def _s1():
+        # ---- (b) compute_generator_padding, whole function, integer encoding (64-bit products stall a bit-blasting back end)
+        f = m.fn(r'^compute_generator_padding$')
+        ev = Evaluator(f, int_mode=True)
+        paths = ev.run()
+        m.note_region(f, 'whole function (mathematical integers with usize range constraints; only checked arithmetic occurs)', sorted(f.blocks))
+        n, mm, c = [ev.sym('_%d@0' % i, 'usize').e for i in (1, 2, 3)]
+        MAXI = (1 << 64) - 1
+        spec_ok = z3.And(2 * n <= MAXI, 2 * n * c <= MAXI, 2 * n * mm <= MAXI, 2 * n * c - 2 * n * mm >= 0)
+        bad = []
+        for p in paths:
+            r = p.env['_0']
+            pc = z3.And(*p.pc) if p.pc else z3.BoolVal(True)
+            val_bad = z3.BoolVal(False)
+            if r.okv is not None and isinstance(r.okv, mirx.IV):
+                val_bad = z3.And(r.ok, r.okv.e != 2 * n * c - 2 * n * mm)
+            bad.append(z3.And(pc, z3.Or(r.ok != spec_ok, val_bad)))
+        m.oblige('compute_generator_padding == Ok(2n(c-m)) iff no overflow and c >= m, Err otherwise (all usize triples)', ev.domain + [z3.Or(bad)], key='C16:padding', pred=None)
+        m.oblige('compute_generator_padding: paths exhaustive', ev.domain + [z3.Not(pc_union(paths))], key='C16:padding')
+    m.section('compute_generator_padding', _s1)
+    def _s2():
+        # ---- (c) AggregatedGensIter::next / size_hint: no overflow, next returns None once party_idx >= m
+        f = m.fn(r'aggregated_gens_iter\.rs.*>::next$')
+        ev = Evaluator(f)
+        paths = ev.run()
+        m.note_region(f, 'whole function', sorted(f.blocks))
+        m.no_overflow(paths, 'AggregatedGensIter::next', 'C16:gens-iter')
+        m.expect(all(p.end[0] == 'return' for p in paths) and len(paths) >= 3, 'C16:gens-iter', 'AggregatedGensIter::next: unexpected path shapes', None, None)
+        f = m.fn(r'aggregated_gens_iter\.rs.*>::size_hint$')
+        ev = Evaluator(f)
+        paths = ev.run()
+        m.note_region(f, 'whole function', sorted(f.blocks))
+        m.no_overflow(paths, 'AggregatedGensIter::size_hint', 'C16:gens-iter')
+    m.section('AggregatedGensIter', _s2)
+    def _s3():
+        # ---- (d) encode_usize: Err iff the index does not fit in 32 bits
+        f = m.fn(r'^encode_usize$')
+        ev = Evaluator(f)
+        paths = ev.run()
+        m.note_region(f, 'whole function', sorted(f.blocks))
+        x = ev.sym('_1@0', 'usize').e
+        bad = []
+        for p in paths:
+            r = p.env['_0']
+            pc = z3.And(*p.pc) if p.pc else z3.BoolVal(True)
+            if not isinstance(r, Res):
+                raise lib.Inconclusive('encode_usize: opaque result')
+            bad.append(z3.And(pc, r.ok != z3.ULE(x, z3.BitVecVal((1 << 32) - 1, 64))))
+        m.oblige('encode_usize == Ok iff index <= u32::MAX (all usize)', [z3.Or(bad)], key='C16:encode-usize', pred=None)
+    m.section('encode_usize', _s3)
+    def _s4():
+        # ---- (e) the verifier's promise guard (consistency function): Err iff bit_length < 64 and promise >= 2^bit_length
+        f = m.fn(r'range_proof\.rs.*>::verify_statements_and_generators_consistency$')
+        a = m.anchor(f, r'"Minimum value promise exceeds bit vector capacity"', 'promise guard message')
+        head = f.walk_back(a, r'as Iterator>::next\(')
+        ev = Evaluator(f)
+        lp = ev.run(start=head, stops=(m.loop_exit(f, head),))
+        m.note_region(f, 'promise guard loop body (inner loop over Some promises)', sorted(set(sum([p.trace for p in lp], []))))
+        u64s = [v for k, v in ev.sym_decl.items() if isinstance(v, BV) and v.ty == 'u64']
+        ns = [v for k, v in ev.sym_decl.items() if isinstance(v, BV) and v.ty == 'usize' and re.match(r'_\d+@0$', k[0])]
+        if len(u64s) != 1 or len(ns) != 1:
+            raise lib.Inconclusive('verifier promise guard: symbols %s' % [k for k in ev.sym_decl])
+        pv, n = u64s[0].e, ns[0].e
+        some = [o['some'] for p in lp for o in p.obs if o['kind'] == 'next']
+        err = [z3.And(*p.pc) for p in lp if p.end[0] == 'return' and isinstance(p.env.get('_0'), Res) and z3.is_false(p.env['_0'].ok)]
+        spec_err = z3.Or([z3.And(n == k, z3.UGE(pv, z3.BitVecVal(1 << k, 64))) for k in range(64)])
+        valid_n = z3.Or([n == k for k in (1, 2, 4, 8, 16, 32, 64)])
+        m.oblige('verifier promise guard: Err iff promise >= 2^bit_length, for all u64 promises and every constructible bit length', [valid_n, some[0], z3.Or(err) != spec_err],
+                 key='C07:promise-guard', pred='verifier_promise_guard', cfg=lambda mod: {'n': bvint(mod, str(n)), 'p': bvint(mod, str(pv))})
+        m.no_overflow(lp, 'verifier promise guard', 'C07:promise-guard')
+    m.section('verifier promise guard', _s4)
+    def _s5():
+        # ---- (f) the s-vector loop of verify (`for i in 1..full_length`): its unchecked `1 << log_i`, `i - j`, `rounds - log_i - 1` cannot overflow
+        f = m.fn(r'range_proof\.rs.*>::verify$')
+        a = m.anchor(f, r'checked_ilog2', 's-vector loop')
+        head = f.walk_back(a, r'<std::ops::Range<usize> as Iterator>::next\(')
+        rb = f.walk_back(head, r'Range::<usize> \{ start: const 1_usize') if head else None
+        if head is None or rb is None:
+            raise lib.Inconclusive('s-vector loop anchors')
+        ev = Evaluator(f)
+        lp = ev.run(start=rb, stops=(m.loop_exit(f, head),))
+        m.note_region(f, 's-vector loop body (index arithmetic with clippy::arithmetic_side_effects allowed)', sorted(set(sum([p.trace for p in lp], []))))
+        rng_obs = [o for p in lp for o in p.obs if o['kind'] == 'range_next' and o['range'] is not None]
+        if not rng_obs:
+            raise lib.Inconclusive('s-vector loop: Range not observed')
+        full = rng_obs[0]['range'].fields[1].e
+        others = [v.e for k, v in ev.sym_decl.items() if isinstance(v, BV) and v.ty == 'usize' and re.match(r'_\d+@0$', k[0]) and str(v.e) != str(full)]
+        if len(others) != 1:
+            raise lib.Inconclusive('s-vector loop: rounds symbol not identified (%s)' % others)
+        rounds = others[0]
+        # invariant established by the round-count guard proved above: full_length == 2^rounds, rounds < 64
+        inv = [z3.ULT(rounds, 64), full == (z3.BitVecVal(1, 64) << rounds)]
+        nass = m.no_overflow(lp, 's-vector loop of verify (given 2^rounds == full_length)', 'C16:s-vector', assume=inv)
+        m.expect(nass >= 3, 'C16:s-vector', 's-vector loop: expected rustc assertions for the shift and the two subtractions, found %d' % nass, None, None)
+        # no index of s / challenges_sq can be out of range either: the `get(..)` calls return Some on the continuing path (structural: the loop can continue)
+        m.expect(any(p.end[0] == 'backedge' for p in lp), 'C16:s-vector', 's-vector loop: no continuing path', None, None)
+    m.section('verify s-vector loop', _s5)
     ctx.extra.setdefault('engine_m', {})['regions'] = m.regions
     ctx.extra['engine_m']['mir_dump_s'] = round(_cache.get('dump_s', 0), 1)
     ctx.functions |= {r['function'] for r in m.regions}
@@ -642,9 +723,17 @@ def _c16_guards(ctx):
 # ================================================================================================ C04 / C19: integers absorbed into the transcript
 def transcript_integers(ctx):
     try:
-        _transcript_integers(ctx)
+        get_mir()
     except lib.Inconclusive as e:
-        ctx.inconclusive.append('Engine M: %s' % e)
+        ctx.inconclusive.append(str(e))
+        return
+    try:
+        _transcript_integers(ctx)
+        ctx.m_decided.append('transcript integers (RangeProofTranscript::new)')
+    except (lib.Inconclusive, mirx.Inconclusive) as e:
+        ctx.m_note('transcript integers (RangeProofTranscript::new)', str(e))
+    except Exception as e:
+        ctx.m_note('transcript integers (RangeProofTranscript::new)', 'the evaluator could not process this code shape (%s: %s)' % (type(e).__name__, str(e)[:200]))
 
 
 def _transcript_integers(ctx):
@@ -708,7 +797,7 @@ def _transcript_integers(ctx):
         else:
             seen_none = True
             m.oblige('transcript: an absent promise is absorbed as 0', p.pc + [arg != 0], key='C04:promise-encoding', pred='wire_vector_mismatch')
-    m.ctx.expect(seen_some and seen_none, 'C04:promise-encoding', 'promise loop: Some / None arms not both observed', None, None)
+    m.expect(seen_some and seen_none, 'C04:promise-encoding', 'promise loop: Some / None arms not both observed', None, None)
     ctx.extra.setdefault('engine_m', {})['regions'] = ctx.extra.get('engine_m', {}).get('regions', []) + m.regions
     ctx.functions |= {r['function'] for r in m.regions}
 
@@ -716,9 +805,17 @@ def _transcript_integers(ctx):
 # ================================================================================================ C03: the chunk loop of verify_batch
 def c03_chunk_loop(ctx):
     try:
-        _c03_chunk_loop(ctx)
+        get_mir()
     except lib.Inconclusive as e:
-        ctx.inconclusive.append('Engine M: %s' % e)
+        ctx.inconclusive.append(str(e))
+        return
+    try:
+        _c03_chunk_loop(ctx)
+        ctx.m_decided.append('verify_batch chunk loop (CFG)')
+    except (lib.Inconclusive, mirx.Inconclusive) as e:
+        ctx.m_note('verify_batch chunk loop (CFG)', str(e))
+    except Exception as e:
+        ctx.m_note('verify_batch chunk loop (CFG)', 'the evaluator could not process this code shape (%s: %s)' % (type(e).__name__, str(e)[:200]))
 
 
 def _c03_chunk_loop(ctx):
@@ -752,15 +849,16 @@ def _c03_chunk_loop(ctx):
     m.note_region(f, 'control flow: call of verify, enclosing loop', sorted(reach & _reach_to(succ, vb)))
     rd = {'replay_cfg': {'scenario': 'batch', 'n': 2, 'x': 1, 'members': [dict({'m': 1, 'cap': 1}, **({'tamper': {'op': 'scalar_add_delta', 'elem': 4}} if i == 256 else {})) for i in range(257)],
                          'actions': ['VerifyOnly']}, 'replay_seeds': 1}
-    ctx.expect(on_cycle and len(heads) >= 1, 'C03:member-ignored:index>=256', 'verify_batch: the call of verify is not inside a loop over the chunks (members beyond the first chunk are never verified)', None,
+    m.expect(on_cycle, 'C03:member-ignored:index>=256', 'verify_batch: the call of verify is not inside a loop over the chunks (members beyond the first chunk are never verified)', None,
                'tampered_accepted', rd)
     if heads:
         it = re.search(r'<(.*) as Iterator>::next', f.blocks[heads[0]][1]).group(1)
         ok = it.count('Chunks') >= 2 and 'ChunksMut' in it
-        ctx.expect(ok, 'C03:chunk-iterator', 'verify_batch: the chunk loop does not iterate over (statement chunks, proof chunks, transcript chunks) together: %s' % it[:200], None, 'tampered_accepted', rd)
+        m.expect(ok, 'C03:chunk-iterator', 'verify_batch: the chunk loop does not iterate over (statement chunks, proof chunks, transcript chunks) together: %s' % it[:200], None, 'tampered_accepted', rd)
     # every result of a chunk is appended to the output (Vec::append on the masks) on the path from the call back to the loop head
-    app = [b for b in (reach & _reach_to(succ, heads[0] if heads else vb)) if re.search(r'Vec::<.*ExtendedMask.*>::append\(', f.blocks[b][1])]
-    ctx.expect(len(app) >= 1, 'C03:result-count', 'verify_batch: chunk results are not appended to the returned vector inside the loop', None, 'results_len_wrong', rd)
+    app = [b for b in (reach & _reach_to(succ, heads[0] if heads else vb))
+           if re.search(r'ExtendedMask', f.blocks[b][1]) and re.search(r'::(append|extend|extend_from_slice|push)(::<[^(]*>)?\(', f.blocks[b][1])]
+    m.expect(len(app) >= 1, 'C03:result-count', 'verify_batch: chunk results are not appended to the returned vector inside the loop', None, 'results_len_wrong', rd)
     ctx.extra.setdefault('engine_m', {})['regions'] = ctx.extra.get('engine_m', {}).get('regions', []) + m.regions
     ctx.functions |= {r['function'] for r in m.regions}
 
